@@ -88,7 +88,9 @@ def scenarios(tier, seed):
                                     states=styles[k % len(styles)], names=["str", "long", "int"][k % 3], hashseed=k % 2,
                                     cost=len(C.sym_names(dict(nodes=nodes, parents=parents, card=card)))))
     for mname, (nodes, scopes) in MNS.items():
-        for card in C.card_options(nodes, tier)[:2]:
+        for ci_, card in enumerate(C.card_options(nodes, tier)[:2]):
+            if tier == "quick" and mname == "mdup" and ci_ > 0:
+                continue   # (the three-state variant of the duplicate-scope network costs a minute per scenario: thorough tier only)
             for r in (1, 2):
                 for q in itertools.combinations(nodes, r):
                     if int(np.prod([card[v] for v in q])) > maxcells:
@@ -100,13 +102,13 @@ def scenarios(tier, seed):
                             continue
                         out.append(dict(family=f"map/ve-mn/{mname}", kind="mn", budget_s=45, nodes=nodes, scopes=scopes, card=card, q=list(q), ev=ev2,
                                         engine="ve", order=[None, "explicit"][k % 2], states=C.STATE_STYLES[k % len(C.STATE_STYLES)],
-                                        hashseed=k % 2))
+                                        hashseed=k % 2, cost=1000))
                         vcand = [x for x in nodes if x not in q and x not in ev2]
-                        if vcand and k % 6 == 0 and mname != "mdup":
+                        if vcand and k % (12 if tier == "quick" else 4) == 0 and mname != "mdup":
                             # virtual (soft) evidence on a Markov network: the likelihood multiplies the unnormalised joint
                             out.append(dict(family=f"map/ve-mn-virtual/{mname}", kind="mn", budget_s=45, nodes=nodes, scopes=scopes, card=card, q=list(q), ev=ev2,
                                             engine="ve", order=[None, "explicit"][k % 2], states=C.STATE_STYLES[k % len(C.STATE_STYLES)],
-                                            hashseed=k % 2, virt=vcand[0]))
+                                            hashseed=k % 2, virt=vcand[0], cost=1000))
     return out
 
 
